@@ -29,6 +29,7 @@ from ..callgraph import CallGraph
 from .. import events as E
 from .. import types as T
 from ..dataflow import DefUse
+from ._h_A import canonicalise
 from ._h_A import (FactReach, Facts, branch_succ, loop_breaks, nodes_of_stmts, nodes_for, kwarg,
                    is_const, stmts_in, inliner, expander, bind_call, call_arg, real_loops, Owners,
                    followed, returns_of, value_at, strip_wrappers, built_list, need, obj_sites,
@@ -98,6 +99,7 @@ DIRTY_CALLS = ("invalidate_records", "invalidate_column", "invalidate_deps")
 
 
 def check(run, repo, tier):
+  canonicalise(repo)
   w = World(repo)
   cg = CallGraph(w)
   r1_effects(run, w, cg)
